@@ -86,3 +86,62 @@ def generalise(hyps, goal, timeout_ms=3000):
     if not changed:
         return None
     return formulas[:-1] + extra, formulas[-1]
+
+
+# ---------------------------------------------------------------------------------------------------
+import re as _re
+
+
+def purify(formulas):
+    """replace every product of two or more non-numeral factors (and every division by a non-numeral) by an
+    application of an uninterpreted function of the factors (sorted canonically).  The purified problem has fewer
+    facts than real arithmetic, so its unsatisfiability implies that of the original: used for two-run
+    (non-interference) obligations, which only need congruence, never nonlinear arithmetic."""
+    cache = {}
+    zero_facts = []
+    R = z3.RealSort()
+
+    def key(e):
+        return _re.sub(r"#[12]", "", str(e))
+
+    def rec(e):
+        i = e.get_id()
+        if i in cache:
+            return cache[i]
+        if z3.is_quantifier(e):
+            body = rec(e.body())
+            vs = [z3.Const(e.var_name(j), e.var_sort(j)) for j in range(e.num_vars())]
+            # rebuild the quantifier around the purified body (bound variables are de Bruijn indices: keep them)
+            r = z3.ForAll(vs, z3.substitute_vars(body, *reversed(vs))) if e.is_forall() else \
+                z3.Exists(vs, z3.substitute_vars(body, *reversed(vs)))
+            cache[i] = r
+            return r
+        if not z3.is_app(e) or e.num_args() == 0:
+            cache[i] = e
+            return e
+        ch = [rec(c) for c in e.children()]
+        k = e.decl().kind()
+        if k == z3.Z3_OP_MUL and z3.is_real(e):
+            nums = [c for c in ch if z3.is_rational_value(c) or z3.is_int_value(c)]
+            rest = [c for c in ch if not (z3.is_rational_value(c) or z3.is_int_value(c))]
+            if len(rest) >= 2:
+                rest = sorted(rest, key=key)
+                f = z3.Function(f"pmul{len(rest)}", *([R] * (len(rest) + 1)))
+                r = f(*rest)
+                if not any(z3.is_var(x) for x in rest) and len(zero_facts) < 4000:
+                    # a product with a zero factor is zero (what masking by 0/1 indicators needs)
+                    zero_facts.append(z3.Implies(z3.Or(*[x == 0 for x in rest]), r == 0))
+                for c in nums:
+                    r = c * r
+                cache[i] = r
+                return r
+        if k == z3.Z3_OP_DIV and z3.is_real(e) and not (z3.is_rational_value(ch[1]) or z3.is_int_value(ch[1])):
+            f = z3.Function("pdiv", R, R, R)
+            r = f(ch[0], ch[1])
+            cache[i] = r
+            return r
+        r = e if all(a.eq(b) for a, b in zip(ch, e.children())) else e.decl()(*ch)
+        cache[i] = r
+        return r
+    out = [rec(f) for f in formulas]
+    return out + zero_facts
